@@ -38,6 +38,8 @@ def _state_changes(fn: ast.AST) -> list[tuple[str, ast.Call, ast.Call]]:
 
 def run(chk) -> None:
     repo = chk.repo
+    from ._engine import engine_view
+    chk.extra["helpers_inlined"] = engine_view(repo)
     m, add = repo.func(f"{CL}:_add_or_enqueue_event")
     cfg = CFG(add)
     stp = param(add, 2)
